@@ -1,5 +1,7 @@
 package e1
 
+import "strings"
+
 // IMMSites is the alphabet of candidate statements for C01. Variables available in every
 // encloser: x T, p *T, r *T (the receiver in methods of T), o O, op *O, arr []T, tw P, tp *P,
 // y int, rn *N (the receiver in methods of N).
@@ -138,6 +140,9 @@ func CTORSites() []Site {
 		{Tag: "lit assign *p=T{}", Stmt: "*p = {TL}{}", Subj: SubjT, Codes: c1},
 		{Tag: "lit two T{},T{}", Stmt: "_, _ = {TL}{}, &{TL}{}", Subj: SubjT, Codes: []string{"CTOR01", "CTOR01"}},
 		{Tag: "lit two-elided []T{{},{}}", Stmt: "_ = []{T}{{}, {}}", Subj: SubjT, Codes: []string{"CTOR01", "CTOR01"}},
+		// instantiations inside CONSTANT expressions of const and type declarations (len of an array literal is constant)
+		{Tag: "lit in const decl len([1]T{{}})", Stmt: "const $v = len([1]{T}{{}}); _ = $v", Subj: SubjT, Codes: c1, Core: true},
+		{Tag: "lit in type decl [len([2]T{})]byte", Stmt: "type $v [len([2]{T}{1: {}})]byte; _ = $v{}", Subj: SubjT, Codes: c1},
 		{Tag: "lit+new use(T{}, new(T))", Stmt: "use({TL}{}, new({T}))", Subj: SubjT, Codes: []string{"CTOR01", "CTOR02"}},
 		{Tag: "lit nested []T{{Xs:nil}} in call", Stmt: "use(len([]{T}{{Xs: nil}}), {TL}{})", Subj: SubjT, Codes: []string{"CTOR01", "CTOR01"}},
 		{Tag: "lit nested T{Next:&T{}}", Stmt: "_ = {TL}{Next: &{TL}{}}", Subj: SubjT, Codes: []string{"CTOR01", "CTOR01"}, Core: true},
@@ -242,6 +247,8 @@ func Expect(fam *Family, st *Site, encl EnclKind, file int, inU bool, m Mix) []s
 	}
 	inCtorOfT := !inU && contains(m.CtorNames(), encl.fixedName())
 	inCtorOfN := !inU && m.Ctor > 0 && encl == ECtorNewN
+	// T2's list names Alt too under the two-name list shapes (the other SubjT2 types, hid and GT, have constructors of their own)
+	inCtorOfT2 := !inU && m.Ctor >= 2 && encl == ECtorAlt && strings.HasPrefix(st.Tag, "T2 ")
 	switch fam.Name {
 	case "IMM":
 		if !m.Imm {
@@ -269,9 +276,12 @@ func Expect(fam *Family, st *Site, encl EnclKind, file int, inU bool, m Mix) []s
 			}
 			return nil
 		case SubjT2:
+			if inCtorOfT2 {
+				return nil
+			}
 			return st.Codes
 		case SubjT2Mut:
-			if m.Mut {
+			if m.Mut || inCtorOfT2 {
 				return nil
 			}
 			return st.Codes
@@ -281,6 +291,9 @@ func Expect(fam *Family, st *Site, encl EnclKind, file int, inU bool, m Mix) []s
 			return nil
 		}
 		if st.Subj == SubjT2 {
+			if inCtorOfT2 {
+				return nil
+			}
 			return st.Codes
 		}
 		if inCtorOfT {
